@@ -134,4 +134,79 @@ example : snapRowS ['/', '/'] (some [':', ':']) ([':', ':'].intercalate [natDigi
     = .row 12 3 (-45) none :=
   C09S_text_snapRow _ _ 12 3 (-45) (by simp) (by decide) '/' ['/'] rfl (by decide)
 
+/-! ### whole files -/
+
+/-- `generate_snapshots(G, delimiter=D)` / `generate_interactions(G, delimiter=D)` for a delimiter of any length -/
+def Graph.snapshotLinesS (g : Graph) (D : List Char) : List (List Char) :=
+  g.genSnapshots.map (fun r => D.intercalate [natDigits r.1, natDigits r.2.1, intDigits r.2.2])
+
+def Graph.interactionLinesS (g : Graph) (D : List Char) : List (List Char) :=
+  g.genInteractions.map (fun ev =>
+    D.intercalate [natDigits ev.u, natDigits ev.v, [if ev.plus then '+' else '-'], intDigits ev.t])
+
+theorem parseSnapshotsTextS_go_map (cm : List Char) (delim : Option (List Char)) (line : Node × Node × Int → List Char)
+    (h : ∀ r, snapRowS cm delim (line r) = .row r.1 r.2.1 r.2.2 none) (rows : List (Node × Node × Int)) :
+    ∀ g, parseSnapshotsTextS.go cm delim g (rows.map line) = g.addMany (rows.map (fun r => (r.1, r.2.1, r.2.2, none))) := by
+  induction rows with
+  | nil => intro g; rfl
+  | cons r rest ih =>
+    intro g
+    simp only [List.map_cons, parseSnapshotsTextS.go, h r, Graph.addMany]
+    cases g.addInteraction r.1 r.2.1 (some r.2.2) none with
+    | mk g' o =>
+      cases o with
+      | none => exact ih g'
+      | some e => rfl
+
+theorem parseInteractionsTextS_go_map (cm : List Char) (delim : Option (List Char)) (line : Ev → List Char)
+    (h : ∀ r, intRowS cm delim (line r) = .row r) (rows : List Ev) :
+    ∀ g, parseInteractionsTextS.go cm delim g (rows.map line) = g.replayRows rows := by
+  induction rows with
+  | nil => intro g; rfl
+  | cons r rest ih =>
+    intro g
+    simp only [List.map_cons, parseInteractionsTextS.go, h r, Graph.replayRows]
+    cases g.replayRow r with
+    | mk g' o =>
+      cases o with
+      | none => exact ih g'
+      | some e => rfl
+
+/-- **C09 at text level, any delimiter**: what `generate_snapshots(G, D)` prints is parsed with `delimiter=D` into
+    exactly the rows of `generate_snapshots` -/
+theorem C09S_text_roundtrip (g : Graph) (cm D : List Char) (hD : D ≠ [])
+    (hDc : ∀ c ∈ D, c.isDigit = false ∧ c ≠ '-' ∧ isWs c = false)
+    (c0 : Char) (cs : List Char) (hcm : cm = c0 :: cs) (hc0 : c0.isDigit = false ∧ c0 ≠ '-' ∧ c0 ∉ D) :
+    parseSnapshotsTextS g.directed cm (some D) (g.snapshotLinesS D)
+      = parseSnapshots g.directed (g.genSnapshots.map (fun r => (r.1, r.2.1, r.2.2, none))) := by
+  unfold parseSnapshotsTextS parseSnapshots Graph.snapshotLinesS
+  exact parseSnapshotsTextS_go_map cm (some D) _
+    (fun r => C09S_text_snapRow cm D r.1 r.2.1 r.2.2 hD hDc c0 cs hcm hc0) g.genSnapshots _
+
+/-- **C10 at text level, any delimiter** -/
+theorem C10S_text_roundtrip (g : Graph) (cm D : List Char) (hD : D ≠ [])
+    (hDc : ∀ c ∈ D, c.isDigit = false ∧ c ≠ '-' ∧ c ≠ '+' ∧ isWs c = false)
+    (c0 : Char) (cs : List Char) (hcm : cm = c0 :: cs) (hc0 : c0.isDigit = false ∧ c0 ≠ '-' ∧ c0 ≠ '+' ∧ c0 ∉ D) :
+    parseInteractionsTextS g.directed cm (some D) (g.interactionLinesS D)
+      = parseInteractions g.directed g.genInteractions := by
+  unfold parseInteractionsTextS parseInteractions Graph.interactionLinesS
+  exact parseInteractionsTextS_go_map cm (some D) _
+    (fun r => C10S_text_intRow cm D r.u r.v r.plus r.t hD hDc c0 cs hcm hc0) g.genInteractions _
+
+/-- **C09, text, any delimiter**: for every graph built by a history of calls, writing the snapshot rows with `D` and
+    reading them back with `D` raises nothing and gives a graph with the same presence -/
+theorem C09S_text_presence (d0 : Bool) (ops : List Op) (cm D : List Char) (hD : D ≠ [])
+    (hDc : ∀ c ∈ D, c.isDigit = false ∧ c ≠ '-' ∧ isWs c = false)
+    (c0 : Char) (cs : List Char) (hcm : cm = c0 :: cs) (hc0 : c0.isDigit = false ∧ c0 ≠ '-' ∧ c0 ∉ D) :
+    let g := ((Graph.empty d0 true).run ops).1
+    ∃ H, parseSnapshotsTextS d0 cm (some D) (g.snapshotLinesS D) = (H, none) ∧ WF H ∧ H.directed = d0 ∧
+      ∀ u v x, H.hasInteraction u v (some x) = g.hasInteraction u v (some x) := by
+  intro g
+  have hdir : g.directed = d0 := (run_ok (Graph.empty d0 true) (WF.empty _ _) rfl ops).directed
+  obtain ⟨H, h1, h2, h3, h4⟩ := (C09_history d0 ops).2.2
+  refine ⟨H, ?_, h2, h3, h4⟩
+  have := C09S_text_roundtrip g cm D hD hDc c0 cs hcm hc0
+  rw [hdir] at this
+  rw [this]; exact h1
+
 end Dynetx
